@@ -55,6 +55,29 @@ type c33dkg struct {
 	nodes   []*node.Node
 	dkgs    []*bls.DKG
 	groupSK bls.Key // sum of the constant coefficients: the key no party holds
+	msks    [][]string
+	mpks    map[bls.PartyID][]bls.PublicKey
+}
+
+// faultyDKG is party p's key material when the share dealt by party drop never reached it (the view change skips a
+// share that fails validation; a DKG restored from a summary may hold fewer than n shares): its aggregated secret is
+// not the one the magic block's public polynomials give for p.
+func (g *c33dkg) faultyDKG(p, drop int) (*bls.DKG, error) {
+	d := bls.SetDKG(g.t, g.n, map[string]string{}, g.msks[p], g.mpks, g.nodes[p].ID)
+	for i := 0; i < g.n; i++ {
+		if i == drop {
+			continue
+		}
+		sij, err := g.dkgs[i].ComputeDKGKeyShare(d.ID)
+		if err != nil {
+			return nil, err
+		}
+		if err := d.AddSecretShare(g.dkgs[i].ID, sij.GetHexString(), false); err != nil {
+			return nil, err
+		}
+	}
+	d.AggregateSecretKeyShares()
+	return d, nil
 }
 
 func c33coef(salt uint64, party, j int) bls.Key {
@@ -83,6 +106,7 @@ func c33makeDKG(t, n int, nodes []*node.Node, salt uint64) (*c33dkg, error) {
 	if len(mpks) != n {
 		return nil, fmt.Errorf("party ids collide")
 	}
+	g.msks, g.mpks = msks, mpks
 	for i := 0; i < n; i++ {
 		g.dkgs[i] = bls.SetDKG(t, n, map[string]string{}, msks[i], mpks, nodes[i].ID)
 	}
@@ -109,7 +133,7 @@ func c33makeDKG(t, n int, nodes []*node.Node, salt uint64) (*c33dkg, error) {
 // c33node makes the process's miner chain the node of party p: fresh chain,
 // magic block with the n miners, p's DKG, previous round (with its seed, when
 // it is known yet) and the round itself with the given timeout count.
-func c33node(g *c33dkg, p int, rn int64, tc int, prevSeed int64, prevKnown bool) (*Chain, *Round, *Round) {
+func c33node(g *c33dkg, p int, rn int64, tc int, prevSeed int64, prevKnown bool, own ...*bls.DKG) (*Chain, *Round, *Round) {
 	c := chain.Provider().(*chain.Chain)
 	c.ChainConfig = chain.NewConfigImpl(&chain.ConfigData{IsDkgEnabled: true, MinGenerators: 1, GeneratorsPercent: 0.2})
 	mb := block.NewMagicBlock()
@@ -126,7 +150,11 @@ func c33node(g *c33dkg, p int, rn int64, tc int, prevSeed int64, prevKnown bool)
 	SetupMinerChain(c)
 	mc := GetMinerChain()
 	node.Self.Node = g.nodes[p]
-	if err := mc.SetDKG(g.dkgs[p], 0); err != nil {
+	dkg := g.dkgs[p]
+	if len(own) > 0 && own[0] != nil {
+		dkg = own[0]
+	}
+	if err := mc.SetDKG(dkg, 0); err != nil {
 		panic(err)
 	}
 	ctx := context.Background()
@@ -300,9 +328,12 @@ func TestC33_RoundRandomSeed(t *testing.T) {
 			return sk.Sign(msg).GetHexString()
 		}
 		// resolve gives the share text, the carried timeout count and whether the share is the claimed sender's genuine share now
+		var fdkg *bls.DKG // the receiving node's own key material when it is faulty
 		resolve := func(d *c33delivery, cur *c33situation) (share string, label int, genuine bool) {
 			label = cur.tc
 			switch d.kind {
+			case "own-share-of-faulty-key":
+				share = fdkg.Sign(cur.msg).GetHexString()
 			case "valid", "repeat-valid":
 				share = cur.valid[d.party]
 			case "stale-valid":
@@ -381,6 +412,20 @@ func TestC33_RoundRandomSeed(t *testing.T) {
 				}
 				ds = append(ds, d)
 			}
+			// a node whose own key material misses a dealt share: the share it makes for itself is not its signature
+			// under the magic block's keys and must not count on this node either
+			fdkg = nil
+			if n >= 2 && rapid.IntRange(0, 3).Draw(t, "faultySelf") == 0 {
+				drop := (self + 1 + rapid.IntRange(0, n-2).Draw(t, "missingDealer")) % n
+				var err error
+				if fdkg, err = g.faultyDKG(self, drop); err != nil {
+					t.Fatalf("VERIF-HARNESS-ERROR faulty key material: %v", err)
+				}
+				for c, k2 := 0, rapid.IntRange(1, 2).Draw(t, "ownShareDeliveries"); c < k2; c++ {
+					ds = append(ds, c33delivery{party: self, kind: "own-share-of-faulty-key"})
+				}
+				classes["node/own_key_material_misses_a_dealt_share"] = true
+			}
 			order := rapid.Permutation(c33seq(len(ds))).Draw(t, "order")
 			prevLateAfter := -1 // the previous round's seed is known from the start
 			if prevSeed != 0 && len(ds) > 0 && rapid.IntRange(0, 2).Draw(t, "prevSeedLate") == 0 {
@@ -391,7 +436,7 @@ func TestC33_RoundRandomSeed(t *testing.T) {
 				restartAt = rapid.IntRange(1, len(ds)).Draw(t, "restartBefore")
 			}
 
-			mc, pr, mr := c33node(g, self, rn, tc, prevSeed, prevLateAfter < 0)
+			mc, pr, mr := c33node(g, self, rn, tc, prevSeed, prevLateAfter < 0, fdkg)
 			prevKnown := prevLateAfter < 0
 			cur := orig
 			ctx := context.Background()
